@@ -148,6 +148,7 @@ func (f *Field[T]) Sum(inputs ...*Element[T]) *Element[T] {
 	if len(inputs) == 1 {
 		return inputs[0]
 	}
+	addOverflow := bits.Len(uint(len(inputs)))
 	overflow := uint(0)
 	nbLimbs := 0
 	for i := range inputs {
@@ -155,11 +156,27 @@ func (f *Field[T]) Sum(inputs ...*Element[T]) *Element[T] {
 		if inputs[i].overflow > overflow {
 			overflow = inputs[i].overflow
 		}
+	}
+	if overflow+uint(addOverflow) > f.maxOverflow() {
+		// the limbs of the sum would not fit into the native field: reduce the
+		// inputs first (on a copy, the caller's slice is not modified)
+		reduced := make([]*Element[T], len(inputs))
+		for i := range inputs {
+			reduced[i] = f.Reduce(inputs[i])
+		}
+		inputs = reduced
+		overflow = 0
+		for i := range inputs {
+			if inputs[i].overflow > overflow {
+				overflow = inputs[i].overflow
+			}
+		}
+	}
+	for i := range inputs {
 		if len(inputs[i].Limbs) > nbLimbs {
 			nbLimbs = len(inputs[i].Limbs)
 		}
 	}
-	addOverflow := bits.Len(uint(len(inputs)))
 	limbs := make([]frontend.Variable, nbLimbs)
 	for i := range limbs {
 		limbs[i] = 0
